@@ -503,16 +503,16 @@ func (w *SrvWork) RunPhases() bool {
 // left to the property's own rules.
 func (w *SrvWork) CheckReplies(skip func(q *wReq) bool) {
 	for ci, sc := range w.sys.Conns {
-		if !w.setupOK[ci] {
+		if ci >= len(w.setupOK) || !w.setupOK[ci] {
 			continue
 		}
 		dotu := sc.Peer.Dotu
 		for _, q := range w.byConn[ci] {
-			if q.Sent == nil {
-				w.x.Violate("r0-not-sent", "request %v was never written (actor stuck?)", q)
+			if skip != nil && skip(q) {
 				continue
 			}
-			if skip != nil && skip(q) {
+			if q.Sent == nil {
+				w.x.Violate("r0-not-sent", "request %v was never written (actor stuck?)", q)
 				continue
 			}
 			rep := q.Sent.Reply
